@@ -16,7 +16,7 @@ CHECKS = {
    text="For every recorded execution TLC recomputes the binding of every site from the input and requires the output at that site to be the '+' pattern instantiated with it (SubstRel), with per-site bindings (every subject embedded at nine syntactic positions of one file) and slot admissibility taken from the static go/ast slot types.",
    technique="TLA+ reference semantics + TLC design check + trace validation"),
  "C04": dict(level="model_checking", ref="5/C04",
-   text="Exhaustive: every pattern list over {a,b,x,...} with at least one elision against every list over {a,b} within the bounds, realised in call arguments, composite-literal elements and statement blocks; TLC checks the greedy I-machine against the existential P definition (the known incompleteness is pinned as a known finding), every pattern is replayed into the real code and judged (match <=> some choice of runs; runs reproduced in place, complete, in order; leftmost-shortest witness).",
+   text="Exhaustive: every pattern list over {a,b,x,...} with at least one elision against every list over {a,b} within the bounds, realised in call arguments, composite-literal elements, statement blocks, parameter lists and struct field lists; patterns with several elisions and repeated metavariables (universe multi); TLC checks the greedy I-machine against the existential P definition (the known incompleteness is pinned as a known finding), every pattern is replayed into the real code and judged (match <=> some choice of runs; runs reproduced in place, complete, in order; leftmost-shortest witness).",
    technique="TLA+ list-matching semantics (existential vs greedy) + exhaustive TLC enumeration + trace validation"),
  "C05": dict(level="model_checking", ref="5/C05",
    text="Sampled universe patterns and the near-miss corpus patterns are applied to whole files with rich surrounding syntax; TLC judges every recorded (input, output) pair: kind, attributes and child structure must be identical on every path that is not at or below an instance (statement sites keep the exact prefix and suffix).",
